@@ -177,6 +177,14 @@ class SubDep(ht.HTMLDependency):
     """A user subclass of HTMLDependency is a dependency like any other."""
 
 
+class OwnCtorDep(ht.HTMLDependency):
+    """The usual way a component library ships its assets: a subclass with its own constructor signature and a field of its own."""
+
+    def __init__(self, definition, theme="light"):
+        super().__init__(**definition)
+        self.theme = theme
+
+
 class SubMeta(ht.MetadataNode):
     def __init__(self):
         self.payload = ["user data"]
@@ -530,7 +538,12 @@ def _build(r):
             # self-rendering AND tagifiable (a component class with a notebook preview): asked for markup directly, it is a
             # self-rendering object like any other
             return TFObj([], "list", r["s"])
-        return ReprObj(r["s"])
+        o = ReprObj(r["s"])
+        if r.get("taglike"):
+            # a value object of the application that happens to have fields named like a tag's; it is a self-rendering
+            # object all the same
+            o.add_ws, o.name, o.children, o.attrs = True, (r["taglike"] if isinstance(r["taglike"], str) else "div"), [], {}
+        return o
     if k == "meta":
         if r.get("repr"):
             return ReprMeta()
@@ -628,6 +641,8 @@ def build_dep(r):
     if r.get("version_object"):
         from packaging.version import Version
         ver = Version(ver)
+    if r.get("sub") and sum(map(ord, r["name"] + str(r.get("version")))) % 2:
+        return OwnCtorDep({"name": r["name"], "version": ver, **kw}, theme="dark")
     return (SubDep if r.get("sub") else ht.HTMLDependency)(r["name"], ver, **kw)  # (keys such as _mark / nofs are harness-only)
 
 
@@ -959,7 +974,10 @@ def rand_tree(rng, depth=4, kinds=None, names=tag_name, max_children=5, attrs=Tr
         if k == "html":
             return {"k": "html", "s": leaf_hook(rng, "html") if leaf_hook else "<i>h</i>"}
         if k == "obj":
-            return {"k": "obj", "s": leaf_hook(rng, "obj") if leaf_hook else "<u>o</u>"}
+            r_ = {"k": "obj", "s": leaf_hook(rng, "obj") if leaf_hook else "<u>o</u>"}
+            if rng.random() < 0.25:
+                r_["taglike"] = True
+            return r_
         if k == "meta":
             return {"k": "meta", "sub": True} if rng.random() < 0.3 else {"k": "meta"}
         if k == "dep":
